@@ -57,7 +57,7 @@ __CPROVER_requires(__CPROVER_is_fresh(vbuf, *vacant))
 __CPROVER_requires(!g_rd_failed && !g_reporter_called && g_rd_delivered < ((uintmax_t)1 << 62) && ispec.total < ((uintmax_t)1 << 62))
 __CPROVER_assigns(*vacant, __CPROVER_object_whole(vbuf), ispec.total, g_rd_next, g_rd_remaining, g_rd_delivered, g_rd_last, g_rd_failed, g_rd_calls, g_reporter_called)
 __CPROVER_ensures(!g_rd_failed && !g_reporter_called)
-__CPROVER_ensures(*vacant == 0 || g_rd_last == 0)
+__CPROVER_ensures(*vacant == 0 ? g_rd_last > 0 : g_rd_last == 0)   /* chunk full (last read delivered bytes) or end of file, never both */
 __CPROVER_ensures(*vacant <= __CPROVER_old(*vacant))
 __CPROVER_ensures(__CPROVER_old(*vacant) - *vacant == g_rd_delivered - __CPROVER_old(g_rd_delivered))
 __CPROVER_ensures(ispec.total == __CPROVER_old(ispec.total) + (__CPROVER_old(*vacant) - *vacant))
